@@ -7,6 +7,7 @@ import Mathlib.Tactic.Positivity
 import Mathlib.Tactic.Ring
 import Mathlib.Algebra.Order.Field.Basic
 import Mathlib.Algebra.Order.Floor.Ring
+import Mathlib.Data.Rat.Floor
 
 /-!
 # C31 — property theorems (random generators are deterministic and in range; SFMT is the reference)
@@ -17,7 +18,7 @@ the source header into `SimbodyModel/Gen/SFMTParams.lean` on every run).
 * `params_are_reference` — the parameters the code is compiled with are the published SFMT-19937 set.
 * `res53_*` — `to_res53` maps every raw 64-bit word into `[0,1]`; it is `< 1` **iff** `raw < 2⁶⁴ − 2¹⁰`;
   `res53_hits_one` is the negative witness (`to_res53(2⁶⁴−1) = 1.0`): the `[0,1)` claim is *not* provable.
-* `uniform_in_range_exact`, `uniform_getValue_in_range_exact`, `int_mode_in_range_exact` — in exact arithmetic the
+* `uniform_in_range_exact`, `uniform_getValue_in_range_exact`, `uniform_getIntValue_in_range_exact`, `int_mode_in_range_exact` — in exact arithmetic the
   formulas stay in `[min,max)` for `u < 1`.
 * `uniform_can_hit_max`, `uniform_unit_can_hit_one`, `int_mode_can_hit_max`, `uniform_can_exceed_max` — with exact
   binary64 rounding the coded formulas return `max` (or more): finding F8.
@@ -158,6 +159,27 @@ theorem uniform_getValue_in_range_exact (u : Uniform ℚ) (hr : u.range = u.max 
     have : res53ToRat (res53Num u.rng.nextRaw.1) = 1 :=
       le_antisymm h1 (not_lt.1 (fun h => hge ((res53_lt_one_iff _).1 h)))
     rw [this]; unfold uniformFormula; ring
+
+/-- **integer mode of the executed model** (`Uniform.getIntValue`, the function the driver runs, here over ℚ with the exact
+floor): for integer bounds `a < b` and every raw word below `2⁶⁴ − 2¹⁰` the result is an integer in `[a, b)`.  For the top
+1024 raw words the value is `b` itself (`uniform_getValue_in_range_exact`, fourth clause) — finding F8. -/
+theorem uniform_getIntValue_in_range_exact (u : Uniform ℚ) (a b : ℤ) (hmin : u.min = a) (hmax : u.max = b)
+    (hr : u.range = u.max - u.min) (hab : a < b) (hraw : u.rng.nextRaw.1.toNat < 2 ^ 64 - 2 ^ 10) :
+    a ≤ (u.getIntValue res53ToRat Rat.floor).1 ∧ (u.getIntValue res53ToRat Rat.floor).1 < b := by
+  have hmm : u.min < u.max := by rw [hmin, hmax]; exact_mod_cast hab
+  obtain ⟨h1, _, h3, _⟩ := uniform_getValue_in_range_exact u hr hmm
+  have hv : (u.getIntValue res53ToRat Rat.floor).1 = ⌊(u.getValue res53ToRat).1⌋ := rfl
+  rw [hv]
+  have hlt := h3 hraw
+  rw [hmin] at h1
+  rw [hmax] at hlt
+  exact ⟨Int.le_floor.2 h1, Int.floor_lt.2 hlt⟩
+
+/-- non-vacuity: a `Uniform(0,10)` state over ℚ whose buffer holds the raw word 0 at the read position satisfies all
+hypotheses, and the theorem then gives `0 ≤ getIntValue < 10` -/
+example : ∃ u : Uniform ℚ, u.min = (0 : ℤ) ∧ u.max = (10 : ℤ) ∧ u.range = u.max - u.min ∧
+    u.rng.nextRaw.1.toNat < 2 ^ 64 - 2 ^ 10 :=
+  ⟨⟨⟨⟨#[], 0⟩, #[0], 0⟩, 0, 10, 10⟩, by norm_num, by norm_num, by norm_num, by decide⟩
 
 /-- the three ways a `Uniform` is configured all establish `range = max − min` -/
 theorem uniform_range_invariant (seed : UInt32) (mn mx v : ℚ) :
